@@ -135,6 +135,9 @@ class Project(MessageHandler):
         self.outputDir: str = "./"
         self.warnTsDeltas: bool = False
 
+        # Indices of the scenarios that schedule() has completed. A scenario is scheduled once.
+        self._scheduledScenarios: set[int] = set()
+
     def _define_scenario_attributes(self) -> None:
         attrs: list[list[Any]] = [
             ["active", "Enabled", BooleanAttribute, True, False, False, True],
@@ -310,6 +313,18 @@ class Project(MessageHandler):
         return 60 * 60
 
     def schedule(self) -> bool:
+        # A scenario is scheduled only once. Preparing a scheduled scenario again would reset
+        # limit counters, resource scoreboards and booked effort although the tasks that are
+        # already scheduled are skipped instead of being booked again, and a task that could
+        # not be scheduled would be booked on top of its earlier attempt. With no scenario left
+        # to schedule, calling schedule() again leaves the project as it is.
+        def pending(sc: Any) -> bool:
+            active = sc.get("active")
+            return bool(active or active is None) and sc.sequenceNo - 1 not in self._scheduledScenarios
+
+        if self._scheduledScenarios and not any(pending(sc) for sc in self.scenarios):
+            return True
+
         # Extend project end if tasks require more time
         if getattr(self, "_declaredEnd", None) is None:
             self._declaredEnd = self.attributes.get("end")
@@ -331,6 +346,8 @@ class Project(MessageHandler):
                 continue
 
             scIdx: int = sc.sequenceNo - 1
+            if scIdx in self._scheduledScenarios:
+                continue
 
             # Each scenario is scheduled as if it were the only one: size the slot grid
             # for this scenario's efforts, starting again from the declared end
@@ -349,6 +366,7 @@ class Project(MessageHandler):
 
             # Finish
             self.finishScenario(scIdx)
+            self._scheduledScenarios.add(scIdx)
 
         return True
 
